@@ -1,5 +1,108 @@
-"""Native searches for classes without a generic scenario set."""
+"""Native searches for functions without a generic scenario set (parallel utilities ...)."""
+import itertools
+import os
+import threading
+import time
+
+os.environ.setdefault('OMP_NUM_THREADS', '1')
+os.environ.setdefault('MKL_NUM_THREADS', '1')
+
+
+class SrcBoom(Exception):
+    pass
+
+
+class FnBoom(Exception):
+    pass
+
+
+class BaseBoom(BaseException):
+    pass
+
+
+def _source(n, bad_at=None, exc=SrcBoom, log=None):
+    for i in range(n):
+        if bad_at is not None and i == bad_at:
+            raise exc(i)
+        if log is not None:
+            log.append(('pull', i))
+        yield i
+    if bad_at is not None and bad_at == n:
+        raise exc(n)
+
+
+def expected_stream(n, src_bad, fn_bad):
+    out = []
+    for i in range(n + 1):
+        if src_bad is not None and i == src_bad:
+            return out, 'SrcBoom'
+        if i == n:
+            break
+        if fn_bad is not None and i == fn_bad:
+            return out, 'FnBoom'
+        out.append(i * 10)
+    return out, None
+
+
+def run_stream(make):
+    got = []
+    err = None
+    try:
+        for x in make():
+            got.append(x)
+    except BaseException as e:  # noqa
+        err = type(e).__name__
+    return got, err
+
+
+def search_lazy_parallel_map(rep):
+    from lazy_dataset.parallel_utils import lazy_parallel_map
+    cases = 0
+    for n, b, w in itertools.product((0, 1, 3, 6), (1, 2, 4), (1, 2)):
+        if b < w:
+            continue
+        for src_bad, fn_bad in [(None, None)] + [(i, None) for i in range(n + 1)] + [(None, i) for i in range(n)]:
+            def f(x, fn_bad=fn_bad):
+                if x == fn_bad:
+                    raise FnBoom(x)
+                return x * 10
+            cases += 1
+            got = run_stream(lambda: lazy_parallel_map(f, _source(n, src_bad), buffer_size=b, max_workers=w,
+                                                       backend='t'))
+            exp = expected_stream(n, src_bad, fn_bad)
+            if got != exp:
+                return {'reproduced': True, 'cases_searched': cases,
+                        'scenario': 'lazy_parallel_map(f, source(n=%d, raises at %s), buffer_size=%d, max_workers=%d, '
+                                    "backend='t'), f raises at %s" % (n, src_bad, b, w, fn_bad),
+                        'mismatches': [{'clause': 'stream', 'observed': repr(got), 'expected': repr(exp)}],
+                        'class': 'lazy_parallel_map'}
+    return {'reproduced': False, 'cases_searched': cases, 'class': 'lazy_parallel_map',
+            'bound': 'n in {0,1,3,6}, buffer in {1,2,4}, workers in {1,2}, thread backend, every single failing position'}
+
+
+def search_single_thread_prefetch(rep):
+    from lazy_dataset.parallel_utils import single_thread_prefetch
+    cases = 0
+    for n, b in itertools.product((0, 1, 3, 6), (1, 2, 4)):
+        for src_bad, exc in [(None, SrcBoom)] + [(i, SrcBoom) for i in range(n + 1)] + [(i, BaseBoom) for i in range(n + 1)]:
+            cases += 1
+            got = run_stream(lambda: single_thread_prefetch(_source(n, src_bad, exc), b))
+            exp_vals = list(range(n if src_bad is None else src_bad))
+            exp = (exp_vals, None if src_bad is None else exc.__name__)
+            if got != exp:
+                return {'reproduced': True, 'cases_searched': cases, 'class': 'single_thread_prefetch',
+                        'scenario': 'single_thread_prefetch(source(n=%d, raises %s at %s), buffer_size=%d)'
+                                    % (n, exc.__name__, src_bad, b),
+                        'mismatches': [{'clause': 'stream', 'observed': repr(got), 'expected': repr(exp)}]}
+    return {'reproduced': False, 'cases_searched': cases, 'class': 'single_thread_prefetch',
+            'bound': 'n in {0,1,3,6}, buffer in {1,2,4}, every failing position, Exception and BaseException'}
+
+
+SEARCHES = {'lazy_parallel_map': search_lazy_parallel_map, 'single_thread_prefetch': search_single_thread_prefetch}
 
 
 def search(cls, meth, rep):
-    return {'reproduced': False, 'note': 'no native scenario set for %s.%s' % (cls, meth)}
+    f = SEARCHES.get(meth) or SEARCHES.get(cls)
+    if f is None:
+        return {'reproduced': False, 'note': 'no native scenario set for %s.%s' % (cls, meth)}
+    return f(rep)
